@@ -238,11 +238,13 @@ def w_history(case, opts):
     for lim in case["limits"]:
         ctxs.append(E.new_context(lim.get("tl"), lim.get("ml")))
     out = []
-    for op in case["ops"]:
+    for step, op in enumerate(case["ops"]):
         c = ctxs[op["ctx"]]
         ent = {}
         if op["op"] == "eval":
-            r = E.run_js(op["src"], {"log": False, "max_steps": 400000}, ctx=c)
+            # the (virtual) wall clock moves on between evaluations: whatever an earlier evaluation left behind must not still be
+            # measuring *its* deadline
+            r = E.run_js(op["src"], {"log": False, "max_steps": 400000, "clock_base": 1000.0 + 50.0 * step}, ctx=c)
             ent["out"] = r["out"]
             ent["cls"] = (r.get("err") or {}).get("cls")
             ent["py"] = r.get("py")
@@ -322,7 +324,7 @@ PROBE = ("[Math.PI > 3.14, Math.floor(2.5), typeof JSON.parse, JSON.stringify([1
 
 # ---------------- model for histories -----------------------------------------------------------
 def gen_history(rng, length, nctx):
-    names = ["x", "y", "z", "fn", "obj"]
+    names = ["x", "y", "z", "fn", "obj", "rx"]
     limits = [{"tl": None, "ml": None}, {"tl": 3000, "ml": None}, {"tl": 3000, "ml": 30000}][:nctx]
     ops = []
     model = [dict() for _ in range(nctx)]      # name -> expected encpy, or absent
@@ -330,10 +332,12 @@ def gen_history(rng, length, nctx):
     for _ in range(length):
         ci = rng.randrange(nctx)
         kind = rng.choice(["define", "assign", "func", "throw", "syntax", "loop", "recurse", "set", "get", "indirect",
-                           "newfunc", "objmut", "delete", "throw-mid"])
+                           "newfunc", "objmut", "delete", "throw-mid", "compile-reject", "regex-define", "regex-use", "regex-use", "var-redeclare"])
         n = rng.choice(names[:3])
         v = rng.randint(1, 99)
         m = model[ci]
+        if kind == "regex-use" and m.get("rx") != "regex-holder":
+            kind = "regex-define"
         e = {"ctx": ci}
         if kind == "define":
             ops.append({"ctx": ci, "op": "eval", "src": "var %s = %d; %s" % (n, v, n)})
@@ -357,6 +361,12 @@ def gen_history(rng, length, nctx):
         elif kind == "syntax":
             ops.append({"ctx": ci, "op": "eval", "src": "%s = %d; (((" % (n, v)})
             e.update(out="jserr", cls="JSSyntaxError")
+        elif kind == "compile-reject":
+            # parses, but the compiler refuses it while it is inside a function nested in functions whose locals carry the names in play
+            # (nothing of an aborted compilation may survive: not in this context, not in the others)
+            why = rng.choice(["if (q) break;", "continue;", "nolabel: { break other; }", "for (q.p of []) {}", "var big = [%s];" % ", ".join(str(i) for i in range(300))])
+            ops.append({"ctx": ci, "op": "eval", "src": "%s = %d; function setup(x, fn) { var y = 0, z = [], obj = {}; var inner = function (q) { function deep() { %s } }; }" % (n, v, why)})
+            e.update(out="jserr")
         elif kind == "loop":
             ops.append({"ctx": ci, "op": "eval", "src": "%s = %d; while (true) {}" % (n, v)})
             if limits[ci]["tl"]:
@@ -397,6 +407,16 @@ def gen_history(rng, length, nctx):
             ops.append({"ctx": ci, "op": "eval", "src": "var obj = {a: %d}; obj.b = [1]; obj.a" % v})
             m["obj"] = ["m", [["a", ["i", str(v)]], ["b", ["l", [["i", "1"]]]]]]
             e.update(out="ok", py=["i", str(v)])
+        elif kind == "regex-define":
+            ops.append({"ctx": ci, "op": "eval", "src": "var rx = {re: /a+(b)?/g, rc: new RegExp('x*y', 'i'), f: function (s) { return /b+/.test(s); }}; rx.re.test('caab')"})
+            m["rx"] = "regex-holder"
+            e.update(out="ok", py=["b", True])
+        elif kind == "regex-use":
+            ops.append({"ctx": ci, "op": "eval", "src": "rx.re.lastIndex = 0; [rx.re.test('xaab'), rx.rc.test('XXY'), rx.f('abb'), 'aab'.replace(rx.re, '-'), 'a1'.split(rx.rc).length, 'q'.search(rx.rc)].join()"})
+            e.update(out="ok", py=["s", "true,true,true,-,1,-1"])
+        elif kind == "var-redeclare":
+            ops.append({"ctx": ci, "op": "eval", "src": "var %s; var fn; var obj; typeof %s" % (n, n)})
+            e.update(out="ok")
         elif kind == "delete":
             ops.append({"ctx": ci, "op": "eval", "src": "var obj = {a: %d, b: 2}; delete obj.a; 1" % v})
             m["obj"] = ["m", [["b", ["i", "2"]]]]
@@ -472,6 +492,8 @@ def main(ctx):
                         got = row.get(n)
                         if want == ["jsf"]:
                             ok = got == ["jsf"]
+                        elif want == "regex-holder":
+                            ok = isinstance(got, list) and got[:1] == ["m"]
                         else:
                             ok = got == want
                         if not ok:
